@@ -70,7 +70,15 @@ def check_design(ctx, d, steps, memmap, label):
         return True
     ncyc = None if bresp.get('wconflict') is None else bresp['wconflict'] + 1
     fp0 = fingerprint(src)
-    pyrtl.set_working_block(src, no_sanity_check=True)
+    # half of the time the working block is an unrelated decoy: `block=src` must still be what is copied
+    decoy = None
+    if ctx.rng.random() < 0.5:
+        decoy = pyrtl.Block()
+        with pyrtl.set_working_block(decoy, no_sanity_check=True):
+            dq = pyrtl.Output(1, 'verif_decoy_q')
+            dq <<= ~pyrtl.Input(1, 'verif_decoy_p')
+    pyrtl.set_working_block(decoy if decoy is not None else src, no_sanity_check=True)
+    ctx.count('working-block', 'decoy' if decoy is not None else 'source')
     wb0 = pyrtl.working_block()
     ops = [('copy_block', lambda: pyrtl.copy_block(src, update_working_block=False)),
            ('synthesize', lambda: pyrtl.synthesize(update_working_block=False, block=src)),
@@ -89,13 +97,20 @@ def check_design(ctx, d, steps, memmap, label):
             ctx.violation(name + ':working-block-changed', '%s(update_working_block=False) changed the working block' % name,
                           dict(replay, op=name))
             ok = False
-            pyrtl.set_working_block(src, no_sanity_check=True)
+            pyrtl.set_working_block(wb0, no_sanity_check=True)
         dif = fp_diff(fp0, fingerprint(src))
         if dif:
             ctx.violation(name + ':source-modified', '%s(update_working_block=False) modified its source block: %s' % (name, dif),
                           dict(replay, op=name))
             ok = False
             fp0 = fingerprint(src)
+        io_src = (sorted(w.name for w in src.wirevector_subset(pyrtl.Input)), sorted(w.name for w in src.wirevector_subset(pyrtl.Output)))
+        io_res = (sorted(w.name for w in res.wirevector_subset(pyrtl.Input)), sorted(w.name for w in res.wirevector_subset(pyrtl.Output)))
+        if name != 'synthesize' and io_res != io_src:
+            ctx.violation(name + ':wrong-block', '%s(update_working_block=False, block=src) returned a block with inputs/outputs %r, the source has %r' % (
+                name, io_res, io_src), dict(replay, op=name))
+            ok = False
+            continue
         if res is src:
             ctx.violation(name + ':returned-source', '%s returned the source block itself' % name, dict(replay, op=name))
             ok = False
@@ -191,7 +206,7 @@ def main(ctx):
     if not proofs_ok:
         n *= 3
     agree = 0
-    for k in range(n):
+    for k in ctx.loop(n):
         rng = ctx.rng
         d = gen.rand_design(rng, profile='small' if k % 3 else 'med', nops=rng.randint(3, 10), max_total=40,
                             wide_mem=False, nregs=rng.randint(1, 3), raw=False)
